@@ -52,9 +52,14 @@ Definition token_ok (t : token) : bool :=
   && t_sym_ok t && t_mu_ok t && (t_init t <=? max_init) && (t_init t <=? t_max t) && (t_scale t <=? 18).
 Definition coin_ok (c : Z * Z) : bool := (0 <=? fst c) && (0 <=? snd c).
 
-(** types/v1.ValidateGenesis — note: duplicates are NOT looked for here *)
-Definition validate (g : genesis) : bool :=
-  params_ok (g_prm g) && forallb token_ok (g_tokens g) && forallb coin_ok (g_burned g).
+(** types/v1.ValidateGenesis.  [fx]: the repaired validation (commit "fix: token genesis validation
+    rejects repeated symbols, min units and contracts and a missing issue-fee token") also looks for
+    what makes InitGenesis panic; the code as it was did not. *)
+Definition validate (fx : bool) (g : genesis) : bool :=
+  params_ok (g_prm g) && forallb token_ok (g_tokens g) && forallb coin_ok (g_burned g)
+  && (if fx then nodupb (map t_sym (g_tokens g)) && nodupb (map t_mu (g_tokens g))
+                 && existsb (Z.eqb (fst (p_fee (g_prm g)))) (map t_sym (g_tokens g))
+      else true).
 
 (** InitGenesis.  AddToken refuses (-> panic) a symbol or min unit that is already stored. *)
 Definition istate := (list (Z * token) * list (Z * Z) * list ((Z * Z) * Z))%type.
@@ -73,8 +78,8 @@ Definition getz {K} `{EqDec K} (k : K) (m : list (K * Z)) : Z := match get k m w
 (** AddBurnCoin: the amount is added to what is stored for the denomination *)
 Definition add_burn (m : list (Z * Z)) (c : Z * Z) : list (Z * Z) := oins lt1 (fst c) (snd c + getz (fst c) m) m.
 
-Definition import (g : genesis) : option state :=
-  if negb (validate g) then None
+Definition import (fx : bool) (g : genesis) : option state :=
+  if negb (validate fx g) then None
   else match add_tokens (g_tokens g) ([], [], []) with
        | None => None
        | Some (ts, mi, oi) =>
@@ -109,27 +114,37 @@ Definition invb (s : state) : bool :=
 
 (** ** Correspondence and the C12 predicate *)
 Record run := mkRun {
-  r_sA : state; r_gA : genesis; r_val : bool; r_imp : Z; r_sB : option state; r_gB : option genesis
+  r_sA : state; r_gA : genesis; r_val : bool; r_imp : Z; r_sB : option state; r_gB : option genesis;
+  r_t : option (genesis * bool * Z)       (* a tampered copy of the export: the genesis, ValidateGenesis = nil, InitGenesis 0 ok / 2 panic *)
 }.
 Record case := mkCase { c_runs : list run }.
+
+(** the tree under check contains the repair *)
+Definition fixed_v : bool := true.
 
 Definition corr_run (r : run) : bool :=
   invb (r_sA r)
   && eqb (export (r_sA r)) (r_gA r)
-  && eqb (validate (r_gA r)) (r_val r)
-  && match import (r_gA r) with
+  && eqb (validate fixed_v (r_gA r)) (r_val r)
+  && match import fixed_v (r_gA r) with
      | None => negb (r_imp r =? 0)
      | Some b => (r_imp r =? 0) && eqb (r_sB r) (Some b) && eqb (r_gB r) (Some (export b))
+     end
+  && match r_t r with
+     | Some (tg, tv, ti) => eqb (validate fixed_v tg) tv && eqb (match import fixed_v tg with Some _ => true | None => false end) (ti =? 0)
+     | None => true
      end.
 
 (** clause codes: 1 export does not validate; 2 import panics; 3 second export differs;
-    4 a token (by symbol, by min unit, by owner), a burned total or the parameters read differently on B *)
+    4 a token (by symbol, by min unit, by owner), a burned total or the parameters read differently on B;
+    6 a (tampered) genesis that ValidateGenesis accepts makes InitGenesis panic *)
 Definition prop_run (r : run) : Z :=
   first_code
     [ (1, r_val r);
       (2, r_imp r =? 0);
       (3, match r_gB r with Some g => eqb g (r_gA r) | None => true end);
-      (4, match r_sB r with Some b => eqb (queries b) (queries (r_sA r)) | None => true end) ].
+      (4, match r_sB r with Some b => eqb (queries b) (queries (r_sA r)) | None => true end);
+      (6, match r_t r with Some (_, tv, ti) => negb tv || (ti =? 0) | None => true end) ].
 
 Fixpoint check_runs (rs : list run) (i : Z) (corr prop code : Z) : Z * Z * Z :=
   match rs with
